@@ -49,8 +49,7 @@ Lemma nf_check_inv c oi g ty sent :
      nf_rem_ctx_ok c (oi_ctx oi) = true /\
      (forall t, g_rem g = Some t -> t + nfc_interval c <= oi_now oi) /\
      (nfc_interval c <= 0 -> g_ps g = true -> g_bad g = true)) /\
-  (nf_type_eqb ty NfRecovery || nf_type_eqb ty NfAck = true ->
-     forallb (fun u => nf_okB c oi g ty u || nf_okBall c oi g ty u) sent = true).
+  (nf_type_eqb ty NfRecovery || nf_type_eqb ty NfAck = true -> forallb (nf_okB c oi g ty) sent = true).
 Proof.
   unfold nf_check.
   destruct (oi_tick oi && (cx_paused (oi_ctx oi) && cx_ha (oi_ctx oi))); [discriminate|].
@@ -76,19 +75,8 @@ Proof.
         intros _. split; [reflexivity|]. split; [auto|]. split; discriminate.
   - cbn [andb]. intros H. split; [reflexivity|]. split; [discriminate|]. split; [discriminate|].
     intros Era. rewrite Era in H. cbn [andb] in H.
-    destruct (forallb (nf_okB c oi g ty) sent) eqn:KB; cbn [negb] in H.
-    + apply forallb_forall. intros u Hu. rewrite forallb_forall in KB. rewrite (KB u Hu). reflexivity.
-    + destruct (forallb (nf_okBall c oi g ty) sent) eqn:KA; [|discriminate].
-      apply forallb_forall. intros u Hu. rewrite forallb_forall in KA. rewrite (KA u Hu). apply orb_true_r.
+    destruct (forallb (nf_okB c oi g ty) sent); [reflexivity|discriminate].
 Qed.
-
-(* the recorded finding "stale-after-disabled-recovery": u is still listed in notified_problem_users (g_all) although
-   the incident in which u was sent a Problem is over - its Recovery was requested while notifications were disabled
-   globally / for the checkable and Checkable::SendNotifications dropped the request (oi_recdrop) - and u was not
-   sent a Problem since (g_inc) *)
-Definition nf_all_set (ty : nf_type) (g : nf_ghost) : list Z := if nf_type_eqb ty NfRecovery then g_pall g else g_all g.
-Definition nf_stale (ty : nf_type) (u : Z) (g : nf_ghost) : bool :=
-  nf_mem u (nf_all_set ty g) && negb (nf_mem u (nf_inc_set ty g)).
 
 (* the recorded finding "nomore-reset": after the incident's Problem a non-Custom, non-Problem, non-Recovery
    notification passed the notification's filters *)
@@ -100,29 +88,20 @@ Variables (c : nf_cfg) (h : list nf_op).
 Theorem nf_incident g oi ty sent u :
   In (g, oi, NfoDone ty sent) (nf_run_points c h) ->
   ty = NfRecovery \/ ty = NfAck -> In u sent ->
-  nf_stale ty u g = false ->
   exists ur, In ur (cx_users (oi_ctx oi)) /\ nfu_id ur = u /\ nfu_enable ur = true /\
              (nf_mem u (nf_inc_set ty g) = true \/ nf_passes (nfu_types ur) 32 = false).
 Proof.
-  intros HP Hty Hu Hst.
+  intros HP Hty Hu.
   pose proof (nf_points_ok c h nf_init nf_ghost0 _ (nf_init_inv c) HP) as HB. cbn [fst snd] in HB.
   apply nf_check_inv in HB. destruct HB as (_ & _ & _ & K2).
   assert (nf_type_eqb ty NfRecovery || nf_type_eqb ty NfAck = true) as Era by (destruct Hty; subst ty; reflexivity).
   specialize (K2 Era). rewrite forallb_forall in K2. specialize (K2 u Hu).
-  apply orb_true_iff in K2. destruct K2 as [K2|K2].
-  - unfold nf_okB in K2. apply existsb_exists in K2. destruct K2 as (ur & I & Q).
-    fold (nf_inc_set ty g) in Q.
-    apply andb_true_iff in Q. destruct Q as [Q Q4]. apply andb_true_iff in Q. destruct Q as [Q _].
-    apply andb_true_iff in Q. destruct Q as [Q1 Q2].
-    exists ur. repeat split; auto; [lia|].
-    apply orb_true_iff in Q4. destruct Q4 as [Q4|Q4]; [left; assumption|right; apply negb_true_iff; assumption].
-  - unfold nf_okBall in K2. apply existsb_exists in K2. destruct K2 as (ur & I & Q).
-    fold (nf_all_set ty g) in Q.
-    apply andb_true_iff in Q. destruct Q as [Q Q4]. apply andb_true_iff in Q. destruct Q as [Q _].
-    apply andb_true_iff in Q. destruct Q as [Q1 Q2].
-    exists ur. repeat split; auto; [lia|].
-    apply orb_true_iff in Q4. destruct Q4 as [Q4|Q4]; [left|right; apply negb_true_iff; assumption].
-    unfold nf_stale in Hst. rewrite Q4 in Hst. cbn in Hst. apply negb_false_iff in Hst. exact Hst.
+  unfold nf_okB in K2. apply existsb_exists in K2. destruct K2 as (ur & I & Q).
+  fold (nf_inc_set ty g) in Q.
+  apply andb_true_iff in Q. destruct Q as [Q Q4]. apply andb_true_iff in Q. destruct Q as [Q _].
+  apply andb_true_iff in Q. destruct Q as [Q1 Q2].
+  exists ur. repeat split; auto; [lia|].
+  apply orb_true_iff in Q4. destruct Q4 as [Q4|Q4]; [left; assumption|right; apply negb_true_iff; assumption].
 Qed.
 
 Theorem nf_no_duplicate g oi sent u :
@@ -363,25 +342,19 @@ Definition nf_w_drop_hist : list nf_op :=
    NfRequest 2000000020 (nf_w_ctx_en 1 false true true) NfProblem false;
    NfRequest 2000000030 (nf_w_ctx_en 1 true true false) NfAck false].
 
-Theorem nf_stale_refuted :
-  exists g oi sent u,
-    In (g, oi, NfoDone NfAck sent) (nf_run_points nf_w_ok_cfg0 nf_w_drop_hist) /\ In u sent /\
-    nf_mem u (nf_inc_set NfAck g) = false /\
-    (forall ur, In ur (cx_users (oi_ctx oi)) -> nfu_id ur = u -> nf_passes (nfu_types ur) 32 = true) /\
-    nf_stale NfAck u g = true /\
-    snd (nf_oracle nf_w_ok_cfg0 (nf_model_trace nf_w_ok_cfg0 nf_init nf_w_drop_hist)) = Some (3, 100).
-Proof.
-  eexists. eexists. exists [1]. exists 1. split.
-  - vm_compute. right. right. left. reflexivity.
-  - split; [left; reflexivity|]. split; [vm_compute; reflexivity|]. split.
-    + intros ur [<-|[]] _. vm_compute. reflexivity.
-    + split; vm_compute; reflexivity.
-Qed.
+(* with the fix b86ebcb the dropped Recovery request clears notified_problem_users: the Acknowledgement of the next,
+   unnotified problem reaches nobody and the oracle reports nothing *)
+Lemma nf_drop_fixed :
+  nf_oracle nf_w_ok_cfg0 (nf_model_trace nf_w_ok_cfg0 nf_init nf_w_drop_hist) = (None, None) /\
+  map (fun p => snd p) (nf_run_points nf_w_ok_cfg0 nf_w_drop_hist) =
+    [NfoDone NfProblem [1]; NfoDone NfProblem []; NfoDone NfAck []].
+Proof. split; vm_compute; reflexivity. Qed.
 
 (* the gates of Checkable::SendNotifications and of the timer over the full operation, from any state *)
 Theorem nf_request_gates c now x ty force s :
   (cx_glob_en x = false \/ cx_ck_en x = false) -> force = false ->
-  nf_request c now x ty force s = (s, [NfEvDrop ty]).
+  nf_request c now x ty force s =
+  (if nf_type_eqb ty NfRecovery && negb (cx_paused x) then nf_set_npu s [] else s, [NfEvDrop ty]).
 Proof.
   intros [H|H] F; subst force; unfold nf_request; rewrite H; cbn [negb orb andb]; [reflexivity|].
   rewrite orb_true_r. reflexivity.
